@@ -131,6 +131,7 @@ def boolability_chain(repo):
     fn = _find(tree, ast.FunctionDef, "_get_boolability_no_mvv")
     body = [s for s in fn.body if not (isinstance(s, ast.Expr) and isinstance(s.value, ast.Constant))]
     unwrapped = []
+    delegated = []
     i = 0
     # leading `if isinstance(value, C): value = value.value` and `value = replace_known_sequence_value(value)`
     while i < len(body):
@@ -141,6 +142,13 @@ def boolability_chain(repo):
         elif isinstance(s, ast.Assign) and isinstance(s.value, ast.Call) and isinstance(s.value.func, ast.Name) \
                 and s.value.func.id == "replace_known_sequence_value":
             unwrapped += _replace_known_unwrapped(repo)
+            i += 1
+        elif isinstance(s, ast.If) and not s.orelse and len(s.body) == 1 and isinstance(s.body[0], ast.Return) \
+                and isinstance(s.body[0].value, ast.Call) and isinstance(s.body[0].value.func, ast.Name) \
+                and s.body[0].value.func.id == "get_boolability":
+            # `if isinstance(value, MultiValuedValue): return get_boolability(value)`: what unwrapping
+            # produced is handed back to the union-aware entry point
+            delegated += _isinstance_targets(s.test)
             i += 1
         else:
             break
@@ -158,7 +166,7 @@ def boolability_chain(repo):
             raise TranslateError("boolability.py: chain has no else branch")
         else_raises = _is_raise(node.orelse)
         break
-    return list(dict.fromkeys(unwrapped)), handled, else_raises
+    return list(dict.fromkeys(unwrapped)), handled, else_raises, delegated
 
 
 def _replace_known_unwrapped(repo):
@@ -534,7 +542,7 @@ def _sl(xs):
 def translate(repo: str) -> str:
     codes = error_codes(repo)
     h = value_hierarchy(repo)
-    unwrapped, handled, else_raises = boolability_chain(repo)
+    unwrapped, handled, else_raises, delegated = boolability_chain(repo)
     methods, generic_raises = annotation_visitor(repo)
     se_c, se_e, se_b, se_m, se_more = show_error_params(repo)
     se_more_txt = "[" + "; ".join(f"({b}%Z, {m}%Z)" for b, m in se_more) + "]"
@@ -552,7 +560,8 @@ def translate(repo: str) -> str:
         f"Definition value_hierarchy : hierarchy := [\n{rows}\n]%list.\n\n"
         f"Definition boolability_unwrapped : list string := {_sl(unwrapped)}%list.\n"
         f"Definition boolability_handled : list string := {_sl(handled)}%list.\n"
-        f"Definition boolability_else_raises : bool := {'true' if else_raises else 'false'}.\n\n"
+        f"Definition boolability_else_raises : bool := {'true' if else_raises else 'false'}.\n"
+        f"Definition boolability_delegated : list string := {_sl(delegated)}%list.\n\n"
         f"Definition annotation_visitor_methods : list string := {_sl(methods)}%list.\n"
         f"Definition annotation_generic_raises : bool := {'true' if generic_raises else 'false'}.\n"
         f"Definition expr_kinds : list string := {_sl(expr_kinds())}%list.\n\n"
